@@ -109,7 +109,13 @@ def rule_gate_sets(ctx, cfg='prod-all', group='bbs', only=None):
         def known_modulo_positions(q, s):
             r = frozenset(x for x in s if not selector(x))
             return bool(r) and r != s and known(q, r)
-        new = sorted({tuple(sorted(s)) for q, s in now if not known(q, s) and not known_modulo_positions(q, s)})
+        def counts_only(s):
+            # a condition over counts and index lists only, in a function whose acceptance region RF-V compares on the closed, projected
+            # difference constraints: a genuinely new refusal over counts shows there; one implied by construction (`H.len() == n` for
+            # generators made for n) does not
+            import rf_accept
+            return all(selector(x) for x in s) and body.path in rf_accept.load_table()
+        new = sorted({tuple(sorted(s)) for q, s in now if not known(q, s) and not known_modulo_positions(q, s) and not counts_only(s)})
         new = [list(x) for x in new]
         now = {s for q, s in now}
         n += 1
